@@ -33,6 +33,10 @@ RULE = ("All 65536 integers through A% (exhaustive) and booleans; Python floats 
         "the variable's type or not an integer, a string with non-ASCII characters, a list with two "
         "or more dimensions, an expression with an operator or function; distinct = distinct case.")
 ASSUMPTIONS = [
+    "evaluate vs PRINT: PRINT may differ from the stored value by less than one unit of its last "
+    "digit (C07) and evaluate() returns a float64 holding 53 of a double's 56 mantissa bits, so the "
+    "two may differ by less than one unit plus half a float64 ulp (thorough-tier false alarm at "
+    "1.087 units corrected)",
     "float precision: a Python float that is exactly representable in the variable's type must be "
     "stored exactly; any other in-range float must be stored as one of its two neighbours in that "
     "type (error < 1 ulp); get_variable must return the stored single exactly and the stored "
@@ -468,7 +472,10 @@ def check_eval(case, res):
         return res
     res.label('eval.float')
     err = abs(d.value - fv)
-    if err >= d.unit:
+    # PRINT may be off by less than one unit of its last digit (C07); evaluate() returns a Python
+    # float, which holds 53 of the 56 mantissa bits of a double: allow half a Python ulp on top
+    # (negligible for singles and integers, which convert exactly)
+    if err >= d.unit + Fraction(math.ulp(v)) / 2:
         res.fail('eval.number', '%r: evaluate %r PRINT %r: off by %.3f units' % (
             expr, v, t, float(err / d.unit)))
     return res
